@@ -352,4 +352,409 @@ theorem readFrame_frame (t : Char) (data rest : Str) (ht : validType t = true) (
   have : ¬ ((data ++ rest).length < data.length) := by simp
   simp [this]
 
+/-! ### suppression transport -/
+
+theorem splitOnChar_ne_nil (c : Char) (s : Str) : splitOnChar c s ≠ [] := by
+  induction s with
+  | nil => simp [splitOnChar]
+  | cons x r ih =>
+    simp only [splitOnChar]
+    split
+    · simp
+    · split <;> simp
+
+theorem splitOnChar_cons_ne (c x : Char) (r : Str) (h : x ≠ c) :
+    ∃ hd tl, splitOnChar c r = hd :: tl ∧ splitOnChar c (x :: r) = (x :: hd) :: tl := by
+  cases hs : splitOnChar c r with
+  | nil => exact absurd hs (splitOnChar_ne_nil c r)
+  | cons hd tl => exact ⟨hd, tl, rfl, by simp [splitOnChar, h, hs]⟩
+
+/-- splitting a string that contains the separator at a known place -/
+theorem splitOnChar_append (c : Char) (a b : Str) (h : c ∉ a) :
+    splitOnChar c (a ++ c :: b) = a :: splitOnChar c b := by
+  induction a with
+  | nil => simp [splitOnChar]
+  | cons x a ih =>
+    have hx : x ≠ c := fun e => h (by simp [e])
+    have ha : c ∉ a := fun e => h (by simp [e])
+    obtain ⟨hd, tl, h1, h2⟩ := splitOnChar_cons_ne c x (a ++ c :: b) hx
+    rw [List.cons_append, h2]
+    rw [ih ha] at h1
+    simp only [List.cons.injEq] at h1
+    rw [← h1.1, ← h1.2]
+
+theorem splitOnChar_none (c : Char) (a : Str) (h : c ∉ a) : splitOnChar c a = [a] := by
+  induction a with
+  | nil => rfl
+  | cons x a ih =>
+    have hx : x ≠ c := fun e => h (by simp [e])
+    have ha : c ∉ a := fun e => h (by simp [e])
+    simp [splitOnChar, hx, ih ha]
+
+theorem splitOnChar_append' (c : Char) (a b : Str) :
+    splitOnChar c (a ++ c :: b) = (splitOnChar c a).dropLast ++ [] ++
+      ((splitOnChar c a).getLast (splitOnChar_ne_nil c a) :: splitOnChar c b) := by
+  induction a with
+  | nil => simp [splitOnChar]
+  | cons x a ih =>
+    by_cases hx : x = c
+    · subst hx
+      simp only [List.cons_append, splitOnChar, ↓reduceIte, List.append_nil]
+      rw [ih]
+      have hne := splitOnChar_ne_nil x a
+      simp [List.dropLast_cons_of_ne_nil hne, List.getLast_cons hne]
+    · obtain ⟨hd, tl, h1, h2⟩ := splitOnChar_cons_ne c x (a ++ c :: b) hx
+      obtain ⟨hd', tl', h1', h2'⟩ := splitOnChar_cons_ne c x a hx
+      rw [List.cons_append, h2]
+      rw [ih] at h1
+      simp only [h2']
+      simp only [h1'] at h1
+      cases tl' with
+      | nil =>
+        simp at h1
+        simp [h1.1, h1.2]
+      | cons y ys =>
+        simp only [List.dropLast_cons_cons, List.append_nil, List.cons_append, List.cons.injEq] at h1
+        simp [List.getLast_cons, ← h1.1, ← h1.2]
+
+theorem intercalate_splitOnChar (c : Char) (s : Str) : List.intercalate [c] (splitOnChar c s) = s := by
+  induction s with
+  | nil => simp [splitOnChar, List.intercalate]
+  | cons x r ih =>
+    by_cases hx : x = c
+    · subst hx
+      simp only [splitOnChar, ↓reduceIte]
+      cases hs : splitOnChar x r with
+      | nil => exact absurd hs (splitOnChar_ne_nil x r)
+      | cons hd tl =>
+        rw [hs] at ih
+        simp only [List.intercalate, List.intersperse, List.flatten] at ih ⊢
+        simp [List.intersperse, ih]
+    · obtain ⟨hd, tl, h1, h2⟩ := splitOnChar_cons_ne c x r hx
+      rw [h2]
+      rw [h1] at ih
+      cases tl with
+      | nil => simp [List.intercalate] at ih ⊢; exact ih
+      | cons y ys => simp [List.intercalate, List.intersperse] at ih ⊢; exact ih
+
+/-! comment stripping -/
+
+theorem beforeComment_cons (c : Char) (r : Str) (h1 : c ≠ '#') (h2 : c ≠ '/') :
+    beforeComment (c :: r) = (beforeComment r).map (c :: ·) := by
+  generalize hR : (beforeComment r).map (c :: ·) = R
+  unfold beforeComment
+  split
+  · rename_i heq; simp at heq
+  · rename_i heq; simp at heq; exact absurd heq.1 h1
+  · rename_i heq; simp at heq; exact absurd heq.1 h2
+  · rename_i heq; simp at heq; obtain ⟨e, e'⟩ := heq; subst e; subst e'; exact hR
+
+theorem beforeComment_append (a b : Str) (ha : beforeComment a = none) (hb : beforeComment b = none)
+    (hs : ∀ r, b ≠ '/' :: r) : beforeComment (a ++ b) = none := by
+  induction a with
+  | nil => simpa using hb
+  | cons c a ih =>
+    -- the three patterns of beforeComment on c :: a
+    by_cases h1 : c = '#'
+    · subst h1; simp [beforeComment] at ha
+    by_cases h2 : c = '/'
+    · subst h2
+      cases a with
+      | nil =>
+        cases b with
+        | nil => simpa using ha
+        | cons d b' =>
+          have hd : d ≠ '/' := fun e => hs b' (by rw [e])
+          have : beforeComment ('/' :: d :: b') = (beforeComment (d :: b')).map ('/' :: ·) := by
+            simp [beforeComment, hd]
+          simp only [List.cons_append, List.nil_append, this, hb, Option.map_none]
+      | cons d a' =>
+        by_cases h3 : d = '/'
+        · subst h3; simp [beforeComment] at ha
+        · have e1 : beforeComment ('/' :: d :: a') = (beforeComment (d :: a')).map ('/' :: ·) := by
+            simp [beforeComment, h3]
+          have e2 : beforeComment ('/' :: d :: (a' ++ b)) = (beforeComment (d :: (a' ++ b))).map ('/' :: ·) := by
+            simp [beforeComment, h3]
+          rw [e1] at ha
+          have ha' : beforeComment (d :: a') = none := by
+            cases hh : beforeComment (d :: a') with
+            | none => rfl
+            | some x => rw [hh] at ha; simp at ha
+          have := ih ha'
+          simp only [List.cons_append] at this ⊢
+          rw [e2, this]; rfl
+    · have e1 := beforeComment_cons c a h1 h2
+      have e2 := beforeComment_cons c (a ++ b) h1 h2
+      rw [e1] at ha
+      have ha' : beforeComment a = none := by
+        cases hh : beforeComment a with
+        | none => rfl
+        | some x => rw [hh] at ha; simp at ha
+      rw [List.cons_append, e2, ih ha']; rfl
+
+theorem beforeComment_digits (s : Str) (h : ∀ c ∈ s, isDigit c = true ∨ c = '-') : beforeComment s = none := by
+  induction s with
+  | nil => rfl
+  | cons c r ih =>
+    have hc := h c (by simp)
+    have h1 : c ≠ '#' := by
+      rcases hc with hc | hc
+      · intro e; subst e; revert hc; decide
+      · subst hc; decide
+    have h2 : c ≠ '/' := by
+      rcases hc with hc | hc
+      · intro e; subst e; revert hc; decide
+      · subst hc; decide
+    have e1 := beforeComment_cons c r h1 h2
+    rw [e1, ih (fun d hd => h d (by simp [hd]))]; rfl
+
+theorem renderInt_chars (i : Int) : ∀ c ∈ renderInt i, isDigit c = true ∨ c = '-' := by
+  intro c hc
+  unfold renderInt at hc
+  split at hc
+  · simp only [List.mem_cons] at hc
+    rcases hc with hc | hc
+    · exact Or.inr hc
+    · exact Or.inl (render_digits _ c hc)
+  · exact Or.inl (render_digits _ c hc)
+
+theorem renderInt_notin (i : Int) (c : Char) (hc : isDigit c = false) (hm : c ≠ '-') : c ∉ renderInt i := by
+  intro h
+  rcases renderInt_chars i c h with h1 | h1
+  · rw [h1] at hc; cases hc
+  · exact hm h1
+
+/-! the suppression line -/
+
+def Suppr.line0 (s : Suppr) : Str :=
+  s.errorId ++ (if s.fileName.isEmpty then [] else ':' :: s.fileName ++ (if s.lineNumber = -1 then [] else ':' :: renderInt s.lineNumber))
+
+def Suppr.extras (s : Suppr) : List Str :=
+  (if s.symbolName.isEmpty then [] else ["symbol=".toList ++ s.symbolName]) ++ (if s.isPolyspace then ["polyspace=1".toList] else [])
+
+theorem toStr_eq (s : Suppr) : s.toStr = s.line0 ++ s.extras.flatMap ('\n' :: ·) := by
+  unfold Suppr.toStr Suppr.line0 Suppr.extras
+  cases s.symbolName.isEmpty <;> cases s.isPolyspace <;> simp
+
+theorem split_lines (a : Str) (es : List Str) (ha : '\n' ∉ a) (hes : ∀ e ∈ es, '\n' ∉ e) :
+    splitOnChar '\n' (a ++ es.flatMap ('\n' :: ·)) = a :: es := by
+  induction es generalizing a with
+  | nil => simpa using splitOnChar_none '\n' a ha
+  | cons e es ih =>
+    simp only [List.flatMap_cons, List.cons_append]
+    rw [splitOnChar_append '\n' a _ ha, ih e (hes e (by simp)) (fun x hx => hes x (by simp [hx]))]
+
+structure Plain (x : Str) : Prop where
+  semi : ';' ∉ x
+  nl : '\n' ∉ x
+  bc : beforeComment x = none
+
+theorem plain_of (x : Str) (h : (!x.contains ';' && !x.contains '\n' && (beforeComment x).isNone) = true) : Plain x := by
+  simp only [Bool.and_eq_true, Bool.not_eq_true', List.contains_eq_mem, decide_eq_false_iff_not, Option.isNone_iff_eq_none] at h
+  exact ⟨h.1.1, h.1.2, h.2⟩
+
+theorem parseExtras_extras (base s : Suppr) :
+    parseExtras base s.extras = .ok { base with
+      symbolName := if s.symbolName.isEmpty then base.symbolName else s.symbolName,
+      isPolyspace := if s.isPolyspace then true else base.isPolyspace } := by
+  unfold Suppr.extras
+  have hp : ("symbol=".toList).isPrefixOf ("symbol=".toList ++ s.symbolName) = true := by
+    simp [List.isPrefixOf_iff_prefix]
+  have hd : ("symbol=".toList ++ s.symbolName).drop 7 = s.symbolName := List.drop_left' rfl
+  have hq : ("symbol=".toList).isPrefixOf ("polyspace=1".toList) = false := by decide
+  cases h1 : s.symbolName.isEmpty <;> cases h2 : s.isPolyspace <;>
+    simp [parseExtras, hp, hd, hq]
+
+theorem findLastColon_line (fn d : Str) (hd : ':' ∉ d) : findLastColon (fn ++ ':' :: d) = some (fn, d) := by
+  unfold findLastColon
+  rw [splitOnChar_append', splitOnChar_none ':' d hd]
+  have hne := splitOnChar_ne_nil ':' fn
+  simp only [List.append_nil, List.reverse_append, List.reverse_cons, List.reverse_nil, List.nil_append, List.cons_append]
+  simp only [List.reverse_reverse, List.dropLast_concat_getLast, intercalate_splitOnChar]
+
+theorem notin_line0 (s : Suppr) (c : Char) (h1 : c ∉ s.errorId) (h2 : c ≠ ':') (h3 : c ∉ s.fileName)
+    (h4 : c ∉ renderInt s.lineNumber) : c ∉ s.line0 := by
+  unfold Suppr.line0
+  by_cases e1 : s.fileName.isEmpty = true <;> by_cases e2 : s.lineNumber = -1 <;> simp [e1, e2, h1, h2, h3, h4]
+
+theorem bc_line0 (s : Suppr) (hE : beforeComment s.errorId = none) (hF : beforeComment s.fileName = none) :
+    beforeComment s.line0 = none := by
+  unfold Suppr.line0
+  apply beforeComment_append _ _ hE
+  · split
+    · rfl
+    · rw [List.cons_append, beforeComment_cons ':' _ (by decide) (by decide)]
+      have : beforeComment (s.fileName ++ if s.lineNumber = -1 then [] else ':' :: renderInt s.lineNumber) = none := by
+        apply beforeComment_append _ _ hF
+        · split
+          · rfl
+          · rw [beforeComment_cons ':' _ (by decide) (by decide), beforeComment_digits _ (renderInt_chars _)]; rfl
+        · intro r; split <;> simp
+      rw [this]; rfl
+  · intro r; split <;> simp
+
+theorem bc_flat (es : List Str) (h : ∀ e ∈ es, beforeComment e = none) : beforeComment (es.flatMap ('\n' :: ·)) = none := by
+  induction es with
+  | nil => rfl
+  | cons e es ih =>
+    simp only [List.flatMap_cons, List.cons_append]
+    rw [beforeComment_cons '\n' _ (by decide) (by decide)]
+    have : beforeComment (e ++ es.flatMap ('\n' :: ·)) = none := by
+      apply beforeComment_append _ _ (h e (by simp)) (ih (fun x hx => h x (by simp [hx])))
+      intro r
+      cases es <;> simp
+    rw [this]; rfl
+
+theorem notin_renderInt_semicolon (i : Int) : ';' ∉ renderInt i := renderInt_notin i ';' (by decide) (by decide)
+theorem notin_renderInt_nl (i : Int) : '\n' ∉ renderInt i := renderInt_notin i '\n' (by decide) (by decide)
+theorem notin_renderInt_colon (i : Int) : ':' ∉ renderInt i := renderInt_notin i ':' (by decide) (by decide)
+theorem notin_renderInt_dot (i : Int) : '.' ∉ renderInt i := renderInt_notin i '.' (by decide) (by decide)
+
+/-- the pieces of `Suppr.transportable` as propositions -/
+structure SupprOK (s : Suppr) : Prop where
+  eid : Plain s.errorId
+  eidColon : ':' ∉ s.errorId
+  fn : Plain s.fileName
+  sym : Plain s.symbolName
+  heur : s.lineNumber = -1 → match findLastColon s.fileName with
+    | some (_, post) => post.contains '.' = true
+    | none => True
+  lineFile : s.lineNumber ≠ -1 → s.fileName ≠ []
+  l1 : -(2147483648 : Int) ≤ s.lineNumber
+  l2 : s.lineNumber ≤ 2147483647
+  c1 : -(2147483648 : Int) ≤ s.column
+  c2 : s.column ≤ 2147483647
+
+theorem supprOK_of (s : Suppr) (h : s.transportable = true) : SupprOK s := by
+  simp only [Suppr.transportable, Bool.and_eq_true, decide_eq_true_eq, Bool.or_eq_true, bne_iff_ne, ne_eq,
+    beq_iff_eq, Bool.not_eq_true'] at h
+  obtain ⟨⟨⟨⟨⟨⟨⟨⟨⟨h1, h2⟩, h3⟩, h4⟩, h5⟩, h6⟩, h7⟩, h8⟩, h9⟩, h10⟩ := h
+  refine ⟨plain_of _ (by simpa using h1), by simpa using h2, plain_of _ (by simpa using h3), plain_of _ (by simpa using h4),
+    ?_, ?_, h7, h8, h9, h10⟩
+  · intro hl
+    rcases h5 with h5 | h5
+    · exact absurd hl h5
+    · revert h5
+      cases findLastColon s.fileName with
+      | none => intro _; trivial
+      | some p => intro h5; exact h5
+  · intro hl hf
+    rcases h6 with h6 | h6
+    · exact hl h6
+    · rw [hf] at h6; simp at h6
+
+theorem ite_isEmpty (x : Str) : (if x.isEmpty = true then [] else x) = x := by
+  cases x <;> rfl
+
+theorem parseLine_toStr (simp : Str → Str) (s : Suppr) (h : SupprOK s) :
+    parseLine simp s.toStr = .ok { errorId := s.errorId, fileName := if s.fileName.isEmpty then [] else simp s.fileName,
+                                   lineNumber := s.lineNumber, symbolName := s.symbolName, isPolyspace := s.isPolyspace } := by
+  have hnl0 : '\n' ∉ s.line0 := notin_line0 s _ h.eid.nl (by decide) h.fn.nl (notin_renderInt_nl _)
+  have hex : ∀ e ∈ s.extras, '\n' ∉ e ∧ beforeComment e = none := by
+    intro e he
+    unfold Suppr.extras at he
+    simp only [List.mem_append] at he
+    rcases he with he | he
+    · split at he
+      · cases he
+      · simp only [List.mem_singleton] at he
+        subst he
+        refine ⟨by simp [h.sym.nl], ?_⟩
+        show beforeComment ('s' :: 'y' :: 'm' :: 'b' :: 'o' :: 'l' :: '=' :: s.symbolName) = none
+        rw [beforeComment_cons _ _ (by decide) (by decide), beforeComment_cons _ _ (by decide) (by decide),
+          beforeComment_cons _ _ (by decide) (by decide), beforeComment_cons _ _ (by decide) (by decide),
+          beforeComment_cons _ _ (by decide) (by decide), beforeComment_cons _ _ (by decide) (by decide),
+          beforeComment_cons _ _ (by decide) (by decide), h.sym.bc]
+        rfl
+    · split at he
+      · simp only [List.mem_singleton] at he
+        subst he
+        exact ⟨by decide, by decide⟩
+      · cases he
+  have hbc : beforeComment s.toStr = none := by
+    rw [toStr_eq]
+    apply beforeComment_append _ _ (bc_line0 s h.eid.bc h.fn.bc) (bc_flat _ (fun e he => (hex e he).2))
+    intro r
+    cases s.extras <;> simp
+  unfold parseLine
+  simp only [hbc]
+  rw [toStr_eq, split_lines _ _ hnl0 (fun e he => (hex e he).1)]
+  simp only
+  by_cases hfn : s.fileName = []
+  · -- no file name: the line is the id
+    have hl : s.lineNumber = -1 := by
+      by_cases hl : s.lineNumber = -1
+      · exact hl
+      · exact absurd hfn (h.lineFile hl)
+    have hline : s.line0 = s.errorId := by simp [Suppr.line0, hfn]
+    rw [hline, splitOnChar_none ':' _ h.eidColon]
+    simp only [parseExtras_extras, hfn, List.isEmpty_nil, ↓reduceIte, hl]
+    simp [ite_isEmpty]
+  · have hfe : s.fileName.isEmpty = false := by
+      cases hh : s.fileName with
+      | nil => exact absurd hh hfn
+      | cons _ _ => rfl
+    by_cases hl : s.lineNumber = -1
+    · have hline : s.line0 = s.errorId ++ ':' :: s.fileName := by simp [Suppr.line0, hfe, hl]
+      rw [hline, splitOnChar_append ':' _ _ h.eidColon]
+      cases hsp : splitOnChar ':' s.fileName with
+      | nil => exact absurd hsp (splitOnChar_ne_nil _ _)
+      | cons hd tl =>
+        have hint : List.intercalate [':'] (hd :: tl) = s.fileName := by rw [← hsp, intercalate_splitOnChar]
+        simp only [hint, hfe, Bool.false_eq_true, ↓reduceIte]
+        have hheur := h.heur hl
+        cases hfl : findLastColon s.fileName with
+        | none =>
+          simp only [parseExtras_extras, hl]
+          simp [ite_isEmpty]
+        | some p =>
+          obtain ⟨pre, post⟩ := p
+          rw [hfl] at hheur
+          simp only at hheur
+          simp only [hheur, ↓reduceIte, parseExtras_extras, hl]
+          simp [ite_isEmpty]
+    · have hline : s.line0 = s.errorId ++ ':' :: (s.fileName ++ ':' :: renderInt s.lineNumber) := by
+        simp [Suppr.line0, hfe, hl]
+      rw [hline, splitOnChar_append ':' _ _ h.eidColon]
+      cases hsp : splitOnChar ':' (s.fileName ++ ':' :: renderInt s.lineNumber) with
+      | nil => exact absurd hsp (splitOnChar_ne_nil _ _)
+      | cons hd tl =>
+        have hint : List.intercalate [':'] (hd :: tl) = s.fileName ++ ':' :: renderInt s.lineNumber := by
+          rw [← hsp, intercalate_splitOnChar]
+        have hne : (s.fileName ++ ':' :: renderInt s.lineNumber).isEmpty = false := by
+          cases s.fileName <;> rfl
+        have hdot : (renderInt s.lineNumber).contains '.' = false := by
+          simpa using notin_renderInt_dot s.lineNumber
+        simp only [hint, hne, Bool.false_eq_true, ↓reduceIte, findLastColon_line _ _ (notin_renderInt_colon _), hdot, hfe,
+          parseInt32_renderInt _ h.l1 h.l2, parseExtras_extras]
+        simp [ite_isEmpty]
+
+theorem notin_toStr_semicolon (s : Suppr) (h : SupprOK s) : ';' ∉ s.toStr := by
+  rw [toStr_eq]
+  simp only [List.mem_append, not_or]
+  refine ⟨notin_line0 s _ h.eid.semi (by decide) h.fn.semi (notin_renderInt_semicolon _), ?_⟩
+  unfold Suppr.extras
+  cases s.symbolName.isEmpty <;> cases s.isPolyspace <;> simp [h.sym.semi]
+
+/-- SUPPRESSION TRANSPORT ROUND TRIP (restated in Props/C15.lean) -/
+theorem suppr_transport_aux (simp : Str → Str) (s : Suppr) (inl : Bool) (h : s.transportable = true) :
+    supprDecode simp inl (supprEncode s) = .ok { s.transportView simp with isInline := inl } := by
+  have ok := supprOK_of s h
+  have h1 := notin_toStr_semicolon s ok
+  have h2 := notin_renderInt_semicolon s.column
+  have e : supprEncode s = s.toStr ++ ';' :: (renderInt s.column ++ ';' ::
+      ([if s.checked then '1' else '0'] ++ ';' :: ([if s.matched then '1' else '0'] ++ ';' :: s.extraComment))) := by
+    simp [supprEncode]
+  unfold supprDecode
+  rw [e, splitOnChar_append ';' _ _ h1, splitOnChar_append ';' _ _ h2,
+    splitOnChar_append ';' [if s.checked then '1' else '0'] _ (by cases s.checked <;> simp),
+    splitOnChar_append ';' [if s.matched then '1' else '0'] _ (by cases s.matched <;> simp)]
+  cases hsp : splitOnChar ';' s.extraComment with
+  | nil => exact absurd hsp (splitOnChar_ne_nil _ _)
+  | cons p4 more =>
+    have hint : List.intercalate [';'] (p4 :: more) = s.extraComment := by rw [← hsp, intercalate_splitOnChar]
+    simp only [parseLine_toStr simp s ok, parseInt32_renderInt _ ok.c1 ok.c2, hint, Suppr.transportView]
+    cases s.checked <;> cases s.matched <;> simp
+
+
 end Cppcheck.Serialize
